@@ -14,6 +14,22 @@ import (
 func (g *Gen) genSqrt(p *Prog) {
 	prec := g.prec(true)
 	mode := g.mode()
+	// precisions at which the Newton iteration for 1/sqrt ends with the least slack (t.prec == prec+2)
+	// and their neighbours; small integers there stress the final correction loops
+	if g.chance(0.4) {
+		prec = []uint{15, 15, 15, 30, 60, 120, 14, 16, 29, 31, 59, 61}[g.intn(12)]
+		if g.chance(0.7) {
+			v := big.NewInt(int64(2 + g.intn(100000)))
+			if g.chance(0.3) {
+				v = digitsToInt(g.digitsPattern(1 + g.intn(30)))
+			}
+			x := intToVal(v, int64(g.intn(5)-2), false, uint(g.intn(3)), g.mode())
+			vals := []Val{g.receiver(prec, mode), x}
+			vi := p.loadShape(vals, g.aliasShape(2, 0.05))
+			p.Exec(fmt.Sprintf("sqrt %d %d", vi[0], vi[1]))
+			return
+		}
+	}
 	var x Val
 	switch g.intn(10) {
 	case 0:
@@ -28,10 +44,22 @@ func (g *Gen) genSqrt(p *Prog) {
 			}
 		}
 		x = intToVal(sq, int64(g.intn(41)-20), false, uint(g.intn(5)), g.mode())
-	case 4: // root with a tie-like tail: (head.5)^2
-		h := g.digitsPattern(1 + g.intn(int(prec)+2))
+	case 4, 5: // the root is an exact tie at the receiver's precision: (prec digits followed by 5)^2, or a neighbour
+		np := int(prec)
+		if np == 0 || np > 200 {
+			np = 1 + g.intn(20)
+		}
+		h := g.digitsPattern(np)
 		r := digitsToInt(h + "5")
-		x = intToVal(new(big.Int).Mul(r, r), int64(2*(g.intn(21)-10)), false, uint(g.intn(3)), g.mode())
+		sq := new(big.Int).Mul(r, r)
+		if g.chance(0.4) {
+			sq.Add(sq, big.NewInt(int64(g.intn(3)-1)))
+		}
+		// even or odd decimal exponent
+		x = intToVal(sq, int64(2*(g.intn(21)-10)+g.intn(2)), false, uint(g.intn(3)), g.mode())
+		if prec != 0 {
+			prec = uint(np)
+		}
 	default:
 		x = g.finite()
 		x.Neg = g.chance(0.05)
@@ -610,6 +638,14 @@ func (g *Gen) genParse(p *Prog) {
 		}
 	case 5: // decimal mantissa with binary exponent
 		s = digs(1+g.intn(20), "0123456789") + "p" + fmt.Sprintf("%+d", g.intn(201)-100)
+		if base != 0 {
+			base = 10
+		}
+	case 8: // a good mantissa followed by a broken exponent part (error after the mantissa was scanned)
+		s = digs(1+g.intn(25), "0123456789") + []string{"e", "e+", "e-", "E", "p", "p-", "e_1", "e1_", "e+_", "e99999999999999999999", "e-99999999999999999999", "x", "e5x", "."}[g.intn(14)]
+		if g.chance(0.3) {
+			s = "." + s
+		}
 		if base != 0 {
 			base = 10
 		}
